@@ -28,7 +28,7 @@ def jobs_for(ctx):
     S3 = ["".join(p) for n in range(2, 6) for p in itertools.product("abc", repeat=n)]
     extra = ["abab", "a", "", "abababab", "ab", "aaaa", "aaaaaaaa", "héllo wörld héllo", "\U0001F600ab\U0001F600ab", "中文中文中", "abcabcabc"]
     jobs = []
-    n = ctx.pick(600, 8000)
+    n = ctx.n(ctx.pick(600, 8000))
     while len(jobs) < n:
         k = rng.randint(1, 3)
         pool = rng.choice([S, S, S3, extra + S])
